@@ -104,7 +104,7 @@ var headerStates = map[*Frame]map[*ssa.BasicBlock]*State{}
 
 func (fr *Frame) headerEnv(h *ssa.BasicBlock) *Env {
 	st := headerStates[fr][h]
-	e := &Env{vc: fr.vc, fr: fr, vars: map[string]Val{}, heap: st.heap, now: st.now, blk: h, idx: 0, what: "loop header"}
+	e := &Env{vc: fr.vc, fr: fr, vars: map[string]Val{}, heap: st.heap, now: st.now, blk: h, idx: 0, what: "loop header", reach: fr.reach[h]}
 	if fr.entry != nil {
 		e.old = fr.entry.heap
 	}
